@@ -176,6 +176,12 @@ func (e *Enc) decl(key, line string) {
 	e.decls = append(e.decls, line)
 }
 
+// strltFacts: string order is asymmetric. Declared only for functions that compare strings, so that the prelude of all
+// other functions stays byte-identical (some discharged queries are sensitive to any change of the prelude).
+func (e *Enc) strltFacts() {
+	e.decl("strlt-asym", "(assert (forall ((a Str) (b Str)) (! (not (and (strlt a b) (strlt b a))) :pattern ((strlt a b)))))")
+}
+
 func (e *Enc) fresh(prefix string) string {
 	e.nfresh++
 	return fmt.Sprintf("%s!%d", prefix, e.nfresh)
